@@ -13,8 +13,11 @@ Go structs in wire order).  On that layout:
 * `decode_spec`: the complete outcome of `Decode` for **every** octet string;
 * `decode_encode`: a well-formed datagram (version 5, count = number of records, 1..30) decodes to
   exactly its header and records, whatever octets follow it;
-* `decode_ok_flows` / `decode_ok_cases`: flows are only ever returned for a version-5 datagram with a
-  count in 1..30 that is entirely present, and then exactly `Count` of them;
+* `decode_ok_cases` / `decode_ok_flows` / `decode_ok_iff`: a message is only ever returned for a version-5
+  datagram with a count in 1..30 that is entirely present, and then with exactly `Count` flows;
+  `decode_rejected` / `decode_short_flows`: every other datagram — in particular one that carries fewer
+  octets than its header announces — is rejected as a whole, no message is handed out (F29 repair: until
+  then the header came back as a message without flows TOGETHER with the error, and the worker counted it);
 * `decoded_header_at_offsets` / `decoded_flow_at_offsets`: every decoded value is the big-endian
   value of its octets at the Cisco offset (`cisco_offsets`);
 * `v5_marshal_eq_render` / `v5_marshal_valid` (the v5 part of C05): the published text is the
@@ -74,8 +77,8 @@ theorem readFields_encFields (ws vs : List Nat) (tail : Bytes) (c : Nat) (h : Fi
 /-! ## The decoder -/
 
 /-- **C08 (complete outcome)**: `Decode` on every octet string — too short for a header; wrong version;
-count outside 1..30; records not all present (header only, non-fatal error); otherwise header and
-exactly `Count` records, each the slices of its 48 octets -/
+count outside 1..30; records not all present (`shortFlows`: no message, since the F29 repair); otherwise header
+and exactly `Count` records, each the slices of its 48 octets -/
 theorem decode_spec (bs : Bytes) : V5.decode bs = decodeSpec bs := by
   rw [decode_eq_spec_layout, decodeWith_spec_eq]
 
@@ -84,17 +87,17 @@ exactly its header and its records, for **every** trailing octet string -/
 theorem decode_encode (h : List Nat) (fs : List (List Nat)) (tail : Bytes)
     (hh : Fits (widths Spec.v5Header) h) (hfs : ∀ f ∈ fs, Fits (widths Spec.v5Record) f)
     (hv : fieldAt h 0 = 5) (hc : fieldAt h 1 = fs.length) (h1 : 1 ≤ fs.length) (h30 : fs.length ≤ 30) :
-    V5.decode (encodeV5 h fs ++ tail) = .ok ⟨h, fs, none⟩ := by
+    V5.decode (encodeV5 h fs ++ tail) = .ok ⟨h, fs⟩ := by
   rw [decode_spec]; exact decodeSpec_encode h fs tail hh hfs hv hc h1 h30
 
-/-- **C08 (results, all cases)**: a result is either the header alone with the non-fatal `shortFlows` error, or
-error-free with exactly `Count` flows; in particular a partially decoded record list never occurs -/
+/-- **C08 (results, all cases)**: a returned message is the header of a version-5 datagram with a count in 1..30
+whose `Count` records are all present, with exactly those records; a header alone, or a partially decoded record
+list, never occurs.  (Before the F29 repair there was a second case: the header with the error `shortFlows`.) -/
 theorem decode_ok_cases (bs : Bytes) (m : Msg) (h : V5.decode bs = .ok m) :
     fieldAt m.hdr 0 = 5 ∧ 1 ≤ fieldAt m.hdr 1 ∧ fieldAt m.hdr 1 ≤ 30 ∧ 24 ≤ bs.length ∧
     m.hdr = valuesAt (widths Spec.v5Header) bs ∧
-    ((m.err = some .shortFlows ∧ m.flows = [] ∧ bs.length < 24 + 48 * fieldAt m.hdr 1) ∨
-     (m.err = none ∧ 24 + 48 * fieldAt m.hdr 1 ≤ bs.length ∧
-      m.flows = flowsAt (widths Spec.v5Record) (fieldAt m.hdr 1) (bs.drop 24))) := by
+    24 + 48 * fieldAt m.hdr 1 ≤ bs.length ∧
+    m.flows = flowsAt (widths Spec.v5Record) (fieldAt m.hdr 1) (bs.drop 24) := by
   rw [decode_spec] at h
   simp only [decodeSpec] at h
   split at h
@@ -105,27 +108,80 @@ theorem decode_ok_cases (bs : Bytes) (m : Msg) (h : V5.decode bs = .ok m) :
       · simp at h
       · rename_i h24 hver hcnt
         split at h
+        · simp at h
         · rename_i hl
           injection h with h
           subst h
           dsimp only
-          exact ⟨by simpa using hver, by omega, by omega, by omega, rfl, Or.inl ⟨rfl, rfl, hl⟩⟩
-        · rename_i hl
-          injection h with h
-          subst h
-          dsimp only
-          exact ⟨by simpa using hver, by omega, by omega, by omega, rfl, Or.inr ⟨rfl, by omega, rfl⟩⟩
+          exact ⟨by simpa using hver, by omega, by omega, by omega, rfl, by omega, rfl⟩
 
-/-- **C08 (rejection)**: flows are returned only for a version-5 datagram whose count is in 1..30 and whose
-`Count` records are all present; and then exactly `Count` flows are returned.  (An `.error _` outcome
-carries no message at all.) -/
-theorem decode_ok_flows (bs : Bytes) (m : Msg) (h : V5.decode bs = .ok m) (hne : m.flows ≠ []) :
+/-- **C08 (rejection)**: a message is returned only for a version-5 datagram whose count is in 1..30 and whose
+`Count` records are all present; and then exactly `Count` flows (at least one) are returned.  No hypothesis on the
+message (before the F29 repair: "if it has flows"). -/
+theorem decode_ok_flows (bs : Bytes) (m : Msg) (h : V5.decode bs = .ok m) :
     fieldAt m.hdr 0 = 5 ∧ 1 ≤ fieldAt m.hdr 1 ∧ fieldAt m.hdr 1 ≤ 30 ∧
-    24 + 48 * fieldAt m.hdr 1 ≤ bs.length ∧ m.flows.length = fieldAt m.hdr 1 := by
-  obtain ⟨hv, h1, h30, _, _, hc⟩ := decode_ok_cases bs m h
-  rcases hc with ⟨_, he, _⟩ | ⟨_, hl, hf⟩
-  · exact absurd he hne
-  · exact ⟨hv, h1, h30, hl, by rw [hf, flowsAt_length]⟩
+    24 + 48 * fieldAt m.hdr 1 ≤ bs.length ∧ m.flows.length = fieldAt m.hdr 1 ∧ m.flows ≠ [] := by
+  obtain ⟨hv, h1, h30, _, _, hl, hf⟩ := decode_ok_cases bs m h
+  have hlen : m.flows.length = fieldAt m.hdr 1 := by rw [hf, flowsAt_length]
+  refine ⟨hv, h1, h30, hl, hlen, ?_⟩
+  intro he
+  rw [he] at hlen
+  simp at hlen
+  omega
+
+/-- **C08 / C13 (rejection, the other direction)**: a datagram that is too short for a header, has another
+version, a count outside 1..30 or fewer than `24 + 48·Count` octets is rejected as a whole: `Decode` returns
+`(nil, err)` — no message, hence nothing the worker could count as decoded or publish -/
+theorem decode_rejected (bs : Bytes)
+    (h : bs.length < 24 ∨ fieldAt (valuesAt (widths Spec.v5Header) bs) 0 ≠ 5 ∨
+      fieldAt (valuesAt (widths Spec.v5Header) bs) 1 < 1 ∨ fieldAt (valuesAt (widths Spec.v5Header) bs) 1 > 30 ∨
+      bs.length < 24 + 48 * fieldAt (valuesAt (widths Spec.v5Header) bs) 1) :
+    ∃ e, V5.decode bs = .error e := by
+  rw [decode_spec]
+  simp only [decodeSpec]
+  split
+  · exact ⟨_, rfl⟩
+  · split
+    · exact ⟨_, rfl⟩
+    · split
+      · exact ⟨_, rfl⟩
+      · split
+        · exact ⟨_, rfl⟩
+        · omega
+
+/-- **C13 (NetFlow v5: "decodes successfully")**: `Decode` returns a message exactly for the datagrams that hold a
+header with version 5, a count in 1..30 and all `Count` records -/
+theorem decode_ok_iff (bs : Bytes) :
+    (∃ m, V5.decode bs = .ok m) ↔
+      24 ≤ bs.length ∧ fieldAt (valuesAt (widths Spec.v5Header) bs) 0 = 5 ∧
+      1 ≤ fieldAt (valuesAt (widths Spec.v5Header) bs) 1 ∧ fieldAt (valuesAt (widths Spec.v5Header) bs) 1 ≤ 30 ∧
+      24 + 48 * fieldAt (valuesAt (widths Spec.v5Header) bs) 1 ≤ bs.length := by
+  constructor
+  · rintro ⟨m, hm⟩
+    obtain ⟨hv, h1, h30, h24, hh, hl, _⟩ := decode_ok_cases bs m hm
+    rw [hh] at hv h1 h30 hl
+    exact ⟨h24, hv, h1, h30, hl⟩
+  · rintro ⟨h24, hv, h1, h30, hl⟩
+    cases hd : V5.decode bs with
+    | ok m => exact ⟨m, rfl⟩
+    | error e =>
+      obtain ⟨e', he'⟩ : ∃ e, V5.decode bs = .error e := ⟨e, hd⟩
+      rw [decode_spec] at he'
+      simp only [decodeSpec] at he'
+      rw [if_neg (by omega), if_neg (by simpa using hv), if_neg (by omega), if_neg (by omega)] at he'
+      simp at he'
+
+/-- **F29, the case the audit ran**: a well-formed header (version 5, count 1..30) followed by fewer than
+`48·Count` octets — one octet short, say — gives `(nil, "Expect … bytes to read, … remaining")`: the message is
+**absent**, not "present without flows" -/
+theorem decode_short_flows (bs : Bytes) (h24 : 24 ≤ bs.length)
+    (hv : fieldAt (valuesAt (widths Spec.v5Header) bs) 0 = 5)
+    (h1 : 1 ≤ fieldAt (valuesAt (widths Spec.v5Header) bs) 1) (h30 : fieldAt (valuesAt (widths Spec.v5Header) bs) 1 ≤ 30)
+    (hs : bs.length < 24 + 48 * fieldAt (valuesAt (widths Spec.v5Header) bs) 1) :
+    V5.decode bs = .error .shortFlows := by
+  rw [decode_spec]
+  simp only [decodeSpec]
+  rw [if_neg (by omega), if_neg (by simpa using hv), if_neg (by omega), if_pos hs]
 
 /-- **C08 (header fields at Cisco offsets)** -/
 theorem decoded_header_at_offsets (bs : Bytes) (m : Msg) (h : V5.decode bs = .ok m) :
@@ -144,15 +200,13 @@ theorem decoded_flow_at_offsets (bs : Bytes) (m : Msg) (h : V5.decode bs = .ok m
         beN ((bs.drop (24 + 48 * j + offsetOf (widths Spec.v5Record) i)).take
           ((widths Spec.v5Record).getD i 0)) := by
   intro j hj
-  obtain ⟨_, _, _, _, _, hc⟩ := decode_ok_cases bs m h
-  rcases hc with ⟨_, he, _⟩ | ⟨_, _, hf⟩
-  · rw [he] at hj; simp at hj
-  · rw [hf, flowsAt_length] at hj
-    rw [hf, flowsAt_getD _ _ _ _ hj, rec_sum]
-    refine ⟨valuesAt_length _ _, fun i hi => ?_⟩
-    rw [fieldAt, valuesAt_getD _ _ i (by rw [rec_len]; exact hi)]
-    simp only [List.drop_drop]
-    congr 3; omega
+  obtain ⟨_, _, _, _, _, _, hf⟩ := decode_ok_cases bs m h
+  rw [hf, flowsAt_length] at hj
+  rw [hf, flowsAt_getD _ _ _ _ hj, rec_sum]
+  refine ⟨valuesAt_length _ _, fun i hi => ?_⟩
+  rw [fieldAt, valuesAt_getD _ _ i (by rw [rec_len]; exact hi)]
+  simp only [List.drop_drop]
+  congr 3; omega
 
 /-! ## The published text (the NetFlow v5 part of C05) -/
 
@@ -176,7 +230,7 @@ theorem decode_then_marshal (a : Bytes) (h : List Nat) (fs : List (List Nat)) (t
     (hh : Fits (widths Spec.v5Header) h) (hfs : ∀ f ∈ fs, Fits (widths Spec.v5Record) f)
     (hv : fieldAt h 0 = 5) (hc : fieldAt h 1 = fs.length) (h1 : 1 ≤ fs.length) (h30 : fs.length ≤ 30) :
     ∃ m, V5.decode (encodeV5 h fs ++ tail) = .ok m ∧
-      DVal (V5.marshal (ipBytes a) m) (v5Tree a ⟨h, fs, none⟩) :=
+      DVal (V5.marshal (ipBytes a) m) (v5Tree a ⟨h, fs⟩) :=
   ⟨_, decode_encode h fs tail hh hfs hv hc h1 h30, v5_marshal_valid a _⟩
 
 /-! ## Non-vacuity: a concrete one-flow datagram -/
@@ -193,11 +247,13 @@ example : encodeV5 exHeader [exFlow] = exPacket := by decide +kernel
 /-- the hypotheses of `decode_encode` hold for the example -/
 example : Fits (widths Spec.v5Header) exHeader ∧ (∀ f ∈ [exFlow], Fits (widths Spec.v5Record) f) ∧
     fieldAt exHeader 0 = 5 ∧ fieldAt exHeader 1 = [exFlow].length := by decide +kernel
-example : V5.decode (exPacket ++ [1, 2, 3]) = .ok ⟨exHeader, [exFlow], none⟩ := by decide +kernel
-example : V5.decode (exPacket.take 71) = .ok ⟨exHeader, [], some .shortFlows⟩ := by decide +kernel
+example : V5.decode (exPacket ++ [1, 2, 3]) = .ok ⟨exHeader, [exFlow]⟩ := by decide +kernel
+/-- F29: one octet short — no message (before the repair: `.ok ⟨exHeader, [], some .shortFlows⟩`) -/
+example : V5.decode (exPacket.take 71) = .error .shortFlows := by decide +kernel
+example : V5.decode (exPacket.take 24) = .error .shortFlows := by decide +kernel
 example : V5.decode (exPacket.take 23) = .error .short := by decide +kernel
 example : V5.decode (0 :: 9 :: exPacket.drop 2) = .error .badVersion := by decide +kernel
-example : V5.marshal (ipBytes [192, 0, 2, 1]) ⟨exHeader, [exFlow], none⟩ =
+example : V5.marshal (ipBytes [192, 0, 2, 1]) ⟨exHeader, [exFlow]⟩ =
     txt ["{\"AgentID\":\"192.0.2.1\",\"Header\":{\"Versio",
       "n\":5,\"Count\":1,\"SysUpTimeMSecs\":1000,\"UN",
       "IXSecs\":1700000000,\"UNIXNSecs\":0,\"SeqNum",
@@ -216,5 +272,11 @@ example : V5.marshal (ipBytes [192, 0, 2, 1]) ⟨exHeader, [exFlow], none⟩ =
 sources this model mirrors, re-extracted on every run, is exactly the reviewed inventory in `Spec/Sites.lean`
 (which names the model clause of each).  A changed bound, a new or dropped branch breaks this obligation. -/
 theorem guards_reviewed : Gen.Sites.guardsV5 = Spec.Sites.guardsV5 := by decide +kernel
+
+/-- **Tie (error classes, F29)**: re-extracted on every run — `nonfatalError` in netflow/v5/decoder.go is declared as the
+struct wrapper (as `type nonfatalError error` the case of the type switch in `Decode` matches every error and a failed
+decode hands out a message) and nothing constructs one: every error of the v5 decoder is fatal, which is what
+`V5.decodeWith` transcribes (`Except`: a message or an error, never both) -/
+theorem v5_nonfatal_reviewed : Gen.Sites.nonfatalV5 = Spec.Sites.nonfatalV5 := by decide +kernel
 
 end Vflow.C08
